@@ -19,7 +19,7 @@ from mc.oracles import seqscores as O
 
 
 class TableLM(SequentialLanguageModel):
-    def __init__(self, V, depth, seed, rows=2, poison_eos=None):
+    def __init__(self, V, depth, seed, rows=2, poison_eos=None, grad=False):
         super().__init__(V)
         rng = random.Random(1000003 * seed + 101 * V + depth)
         self.depth = depth
@@ -51,6 +51,8 @@ class TableLM(SequentialLanguageModel):
         self.register_buffer("table", torch.tensor(tab, dtype=torch.float32))
         # the oracle reads exactly the float32 values the implementation sees
         self.table_list = self.table.double().tolist()
+        if grad:  # the scores handed to the library are attached to the autograd graph
+            self.table.requires_grad_(True)
         self.protocol_errors = []
         self.calls = 0
 
@@ -95,4 +97,44 @@ class TableLM(SequentialLanguageModel):
         new = dict(prev)
         new["code"] = code
         new["consumed"] = consumed
+        return self.table[prev["row"], code], new
+
+
+class ScriptTableLM(SequentialLanguageModel):
+    """TorchScript-compatible twin of TableLM (same table, same state threading, no bookkeeping):
+    RandomWalk is scripted together with its language model, as the repository's own tests do."""
+
+    def __init__(self, V, depth, seed, rows=2, poison_eos=None):
+        super().__init__(V)
+        ref = TableLM(V, depth, seed, rows, poison_eos)
+        self.ncodes = ref.ncodes
+        self.register_buffer("table", ref.table.clone())
+        self.table_list = ref.table_list
+
+    @torch.jit.export
+    def update_input(self, prev: Dict[str, torch.Tensor], hist: torch.Tensor) -> Dict[str, torch.Tensor]:
+        if "code" in prev:
+            return prev
+        N = hist.size(1)
+        new: Dict[str, torch.Tensor] = {}
+        for k, v in prev.items():
+            new[k] = v
+        if "row" not in new:
+            new["row"] = torch.zeros(N, dtype=torch.long, device=hist.device)
+        new["code"] = torch.zeros(N, dtype=torch.long, device=hist.device)
+        return new
+
+    def calc_idx_log_probs(
+        self, hist: torch.Tensor, prev: Dict[str, torch.Tensor], idx: torch.Tensor
+    ) -> Tuple[torch.Tensor, Dict[str, torch.Tensor]]:
+        i = int(idx.item())
+        code = prev["code"]
+        if i > 0:
+            tok = hist[i - 1].clamp(0, self.vocab_size - 1)
+            code = code * self.vocab_size + tok + 1
+        code = code.clamp_max(self.ncodes - 1)
+        new: Dict[str, torch.Tensor] = {}
+        for k, v in prev.items():
+            new[k] = v
+        new["code"] = code
         return self.table[prev["row"], code], new
